@@ -2,7 +2,10 @@ module verif
 
 go 1.26
 
-require golang.org/x/tools v0.48.0
+require (
+	github.com/anishathalye/porcupine v1.3.0
+	golang.org/x/tools v0.48.0
+)
 
 require (
 	golang.org/x/mod v0.38.0 // indirect
